@@ -30,36 +30,36 @@ Proof. split; vm_compute; reflexivity. Qed.
 
 (* ---------- repaired (regression examples) ---------- *)
 
-Definition text_F30 : list N := (* "1677-09-21T00:12:43.145224192Z" *) [49;54;55;55;45;48;57;45;50;49;84;48;48;58;49;50;58;52;51;46;49;52;53;50;50;52;49;57;50;90]%N.
-Lemma r_F30 : tp_print Pns I64 (-9223372036854775808) = Ok text_F30 /\ tp_parse Pns I64 text_F30 = Ok (-9223372036854775808).
+Definition text_K30 : list N := (* "1677-09-21T00:12:43.145224192Z" *) [49;54;55;55;45;48;57;45;50;49;84;48;48;58;49;50;58;52;51;46;49;52;53;50;50;52;49;57;50;90]%N.
+Lemma r_K30 : tp_print Pns I64 (-9223372036854775808) = Ok text_K30 /\ tp_parse Pns I64 text_K30 = Ok (-9223372036854775808).
 Proof. split; vm_compute; reflexivity. Qed.
 
-Lemma r_F31 : tp_print Ps I64 (-62198755200) = Ok [45;48;48;48;49;45;48;49;45;48;49;84;48;48;58;48;48;58;48;48;90]%N.
+Lemma r_K32 : tp_print Ps I64 (-62198755200) = Ok [45;48;48;48;49;45;48;49;45;48;49;84;48;48;58;48;48;58;48;48;90]%N.
 Proof. vm_compute. reflexivity. Qed.
 
-Lemma r_BUF : tp_print Ph I64 9223372036854775807 = Ok [43;49;48;53;50;49;57;55;50;56;56;54;53;56;57;48;57;45;49;48;45;49;48;84;48;55;58;48;48;58;48;48;90]%N /\
+Lemma r_K33 : tp_print Ph I64 9223372036854775807 = Ok [43;49;48;53;50;49;57;55;50;56;56;54;53;56;57;48;57;45;49;48;45;49;48;84;48;55;58;48;48;58;48;48;90]%N /\
   tp_print Pd I64 9223372036854000000 = Ok [43;50;53;50;53;50;55;51;52;57;50;55;55;54;54;52;48;48;45;48;54;45;50;53;84;48;48;58;48;48;58;48;48;90]%N.
 Proof. split; vm_compute; reflexivity. Qed.
 
-Definition text_F34 : list N := (* "2023-02-29T00:00:00Z" *) [50;48;50;51;45;48;50;45;50;57;84;48;48;58;48;48;58;48;48;90]%N.
-Definition text_F34b : list N := (* "2024-02-29T00:00:00Z" *) [50;48;50;52;45;48;50;45;50;57;84;48;48;58;48;48;58;48;48;90]%N.
-Lemma r_F34 : tp_parse Ps I64 text_F34 = Err InvalidArgument /\ tp_parse Ps I64 text_F34b = Ok 1709164800.
+Definition text_K40 : list N := (* "2023-02-29T00:00:00Z" *) [50;48;50;51;45;48;50;45;50;57;84;48;48;58;48;48;58;48;48;90]%N.
+Definition text_K40b : list N := (* "2024-02-29T00:00:00Z" *) [50;48;50;52;45;48;50;45;50;57;84;48;48;58;48;48;58;48;48;90]%N.
+Lemma r_K40 : tp_parse Ps I64 text_K40 = Err InvalidArgument /\ tp_parse Ps I64 text_K40b = Ok 1709164800.
 Proof. split; vm_compute; reflexivity. Qed.
 
-Lemma r_N1N2 : safe_cast SecT (mkD U64 60 1) (-16) = Err OutOfRange /\
+Lemma r_K43 : safe_cast SecT (mkD U64 60 1) (-16) = Err OutOfRange /\
   safe_cast (mkD U64 1 1) (mkD I64 60 1) 18446744073709551600 = Ok 307445734561825860.
 Proof. split; vm_compute; reflexivity. Qed.
 
-Definition text_N4 : list N := (* "-25252734927766399-03-01T00:00:00Z" *) [45;50;53;50;53;50;55;51;52;57;50;55;55;54;54;51;57;57;45;48;51;45;48;49;84;48;48;58;48;48;58;48;48;90]%N.
-Definition text_N4b : list N := (* "-9223372036854775808-01-01T00:00:00Z" *) [45;57;50;50;51;51;55;50;48;51;54;56;53;52;55;55;53;56;48;56;45;48;49;45;48;49;84;48;48;58;48;48;58;48;48;90]%N.
-Lemma r_N4 : tp_parse Pd I64 text_N4 = Err OutOfRange /\ tp_parse Ps I64 text_N4b = Err OutOfRange.
+Definition text_K46 : list N := (* "-25252734927766399-03-01T00:00:00Z" *) [45;50;53;50;53;50;55;51;52;57;50;55;55;54;54;51;57;57;45;48;51;45;48;49;84;48;48;58;48;48;58;48;48;90]%N.
+Definition text_K46b : list N := (* "-9223372036854775808-01-01T00:00:00Z" *) [45;57;50;50;51;51;55;50;48;51;54;56;53;52;55;55;53;56;48;56;45;48;49;45;48;49;84;48;48;58;48;48;58;48;48;90]%N.
+Lemma r_K46 : tp_parse Pd I64 text_K46 = Err OutOfRange /\ tp_parse Ps I64 text_K46b = Err OutOfRange.
 Proof. split; vm_compute; reflexivity. Qed.
 
-Definition text_N5 : list N := (* "-P9223372036854775808D" *) [45;80;57;50;50;51;51;55;50;48;51;54;56;53;52;55;55;53;56;48;56;68]%N.
-Lemma r_N5 : dur_parse Pd I64 text_N5 = Ok (-9223372036854775808).
+Definition text_K47 : list N := (* "-P9223372036854775808D" *) [45;80;57;50;50;51;51;55;50;48;51;54;56;53;52;55;55;53;56;48;56;68]%N.
+Lemma r_K47 : dur_parse Pd I64 text_K47 = Ok (-9223372036854775808).
 Proof. vm_compute. reflexivity. Qed.
 
-Lemma r_N6 : dur_print Pd I32 (-2147483648) = Ok [45;80;50;49;52;55;52;56;51;54;52;56;68]%N.
+Lemma r_K36 : dur_print Pd I32 (-2147483648) = Ok [45;80;50;49;52;55;52;56;51;54;52;56;68]%N.
 Proof. vm_compute. reflexivity. Qed.
 
 (* time of day of narrow representations (was wrapped before d4af9ec) *)
